@@ -1271,6 +1271,11 @@ func (m *e1Machine) badUnits(i int) []pt.Action {
 		as = append(as, pt.Action{Op: "badunit", R: i, N: k, K: "truncated"})
 	}
 	as = append(as, pt.Action{Op: "badunit", R: i, N: len(u), K: "overcount"})
+	// a unit of the announced length whose k-th operation has a body that cannot be decoded (k >= 2: something of the
+	// unit comes before it)
+	for k := 2; k < len(u); k++ {
+		as = append(as, pt.Action{Op: "badunit", R: i, N: k, K: "garbled"})
+	}
 	return as
 }
 
@@ -1285,6 +1290,12 @@ func (m *e1Machine) applyBadUnit(a pt.Action) *pt.Violation {
 	case "truncated":
 		ops = make([]*model.Operation, a.N) // exact capacity
 		copy(ops, u[:a.N])
+	case "garbled":
+		ops = make([]*model.Operation, len(u))
+		for j := range u {
+			ops[j] = cloneOp(u[j])
+		}
+		ops[a.N].Body = []byte("{not json")
 	default:
 		tx := operations.ModelToOperation(u[0]).(*operations.TransactionOperation)
 		tx.SetNumOfOps(len(u) + 1)
